@@ -13,7 +13,7 @@ RULE = ("Random repositories of 1-6 files (8 host languages, sub-directories) x 
         "drawn from keep-sorted / keep-unique / line-pattern / line-count / check-lua / check-ai and a severity in "
         "{absent, error, warning, info, hint} in mixed case; the expected multiset of (file, block, code, severity) comes "
         "from the reference models, the Lua script chosen and the reply scripted per AI block. Each case is run in scan "
-        "mode and in `list` mode: exit status == (1 iff an error-severity diagnostic is expected), stderr is one JSON "
+        "mode (or, half of them, in diff mode with `**` and `affects` references owing one or two violations each) and in `list` mode: exit status == (1 iff an error-severity diagnostic is expected), stderr is one JSON "
         "object of the documented shape with every expected diagnostic exactly once (nothing printed when none), `list` "
         "exits 0 with one JSON object naming exactly the blocks written. Non-trivial = >=2 validators reporting in one "
         "file and >=2 severities present; distinct = hash of the file set.")
@@ -30,14 +30,14 @@ def plan(tier, seed):
 
 
 def scripts():
-    return {"const": lua_script("const.lua"), "nil": lua_script("nil.lua")}
+    return {"const": lua_script("const.lua"), "nil": lua_script("nil.lua"), "fresh": lua_script("fresh.lua")}
 
 
-def judge(ctx, s, flavour, desc, extra_env=None):
-    """Runs one scenario (scan + list) and returns a Case."""
+def judge(ctx, s, flavour, desc, extra_env=None, diff=None):
+    """Runs one scenario (scan + list, or diff + `**` when a diff is given) and returns a Case."""
     ai = fake_ai.instance()
     ai.begin(scenario.ai_script(s))
-    env = dict(TERM)
+    env = {} if diff else dict(TERM)
     env.update(ai.env())
     if extra_env:
         env.update(extra_env)
@@ -47,8 +47,10 @@ def judge(ctx, s, flavour, desc, extra_env=None):
         tsan_env(env, tsan_dir)
     root = run.make_repo(s.files)
     try:
-        res = run.run(ctx.bins[flavour], [], root, stdin=None, env=env, cpu_limit=60)
-        lst = run.run(ctx.bins[flavour], ["list"], root, stdin=None, env=env, cpu_limit=60)
+        sin = diff.encode("utf-8") if diff else None
+        extra = ["**"] if diff else []
+        res = run.run(ctx.bins[flavour], extra, root, stdin=sin, env=env, cpu_limit=60)
+        lst = run.run(ctx.bins[flavour], ["list"] + extra, root, stdin=sin, env=env, cpu_limit=60)
     finally:
         run.rm(root)
     tsan_sigs, tsan_ignored = tsan_collect(tsan_dir) if tsan_dir else ([], 0)
@@ -128,7 +130,8 @@ def run_job(job, ctx):
     for j in range(job["n"]):
         r = rng("c11", job["seed"], job["i"], j, fl)
         s = scenario.gen_scenario(r, sc)
-        out.append(judge(ctx, s, fl, dict(job, j=j)))
+        diff = scenario.add_affects(r, s) if r.random() < 0.5 else None
+        out.append(judge(ctx, s, fl, dict(job, j=j), diff=diff or None))
     return out
 
 
